@@ -35,9 +35,13 @@ def takeSub (sub : Nat) : Nat → Nat → Nat → Nat × Nat
 /-- `recursive_descent` (fuel = `max_depth − depth`). Cells are `(depth, idx)`. -/
 def descent : Nat → Nat → Nat → Nat → Bool → Nat → Option (List Cell)
   | 0, depth, ipix, cellVal, strict, t =>
-    if cellVal ≥ t then some (if cellVal = t || !strict then [(depth, ipix)] else []) else none
+    if cellVal ≥ t then
+      -- (repaired) a target of 0: the threshold is the lower bound of the cell, nothing of it is added
+      (if t = 0 then some [] else some (if cellVal = t || !strict then [(depth, ipix)] else []))
+    else none
   | fuel + 1, depth, ipix, cellVal, strict, t =>
     if cellVal ≥ t then
+      if t = 0 then some [] else
       let sub := cellVal / 4
       let (k, t') := takeSub sub 5 0 t
       if k < 4 then
@@ -49,9 +53,13 @@ def descent : Nat → Nat → Nat → Nat → Bool → Nat → Option (List Cell
 /-- `reverse_recursive_descent`: sub-cells taken from index 3 downwards. -/
 def descentR : Nat → Nat → Nat → Nat → Bool → Nat → Option (List Cell)
   | 0, depth, ipix, cellVal, strict, t =>
-    if cellVal ≥ t then some (if cellVal = t || !strict then [(depth, ipix)] else []) else none
+    if cellVal ≥ t then
+      -- (repaired) a target of 0: the threshold is the lower bound of the cell, nothing of it is added
+      (if t = 0 then some [] else some (if cellVal = t || !strict then [(depth, ipix)] else []))
+    else none
   | fuel + 1, depth, ipix, cellVal, strict, t =>
     if cellVal ≥ t then
+      if t = 0 then some [] else
       let sub := cellVal / 4
       let (k, t') := takeSub sub 5 0 t
       if k < 4 then
@@ -63,9 +71,13 @@ def descentR : Nat → Nat → Nat → Nat → Bool → Nat → Option (List Cel
 /-- `recursive_descent_rev`: start adding cells once `target_val` has been reached. -/
 def descentRev : Nat → Nat → Nat → Nat → Bool → Nat → Option (List Cell)
   | 0, depth, ipix, cellVal, strict, t =>
-    if cellVal ≥ t then some (if cellVal ≠ t && !strict then [(depth, ipix)] else []) else none
+    if cellVal ≥ t then
+      -- (repaired) a target of 0: the threshold is the lower bound of the cell, the whole cell is added
+      (if t = 0 then some [(depth, ipix)] else some (if cellVal ≠ t && !strict then [(depth, ipix)] else []))
+    else none
   | fuel + 1, depth, ipix, cellVal, strict, t =>
     if cellVal ≥ t then
+      if t = 0 then some [(depth, ipix)] else
       let sub := cellVal / 4
       let (k, t') := takeSub sub 5 0 t
       -- (Rust has no assert here: with k = 4 it would descend into a non-existing fifth sub-cell)
@@ -75,18 +87,21 @@ def descentRev : Nat → Nat → Nat → Nat → Bool → Nat → Option (List C
       else none
     else none
 
-/-- `reverse_recursive_descent_rev`.  NB (transliteration): the Rust function recurses into the
-    NON-reversed `recursive_descent_rev`, so only the first level is taken in reverse order; the
-    enclosed mass is unaffected (sub-cells have equal values). -/
+/-- `reverse_recursive_descent_rev` (repaired: it recursed into the NON-reversed `recursive_descent_rev`, so that only
+    the first level was taken in reverse order and the selections `[0, x]` and `[x, total]` of a map overlapped). -/
 def descentRRev : Nat → Nat → Nat → Nat → Bool → Nat → Option (List Cell)
   | 0, depth, ipix, cellVal, strict, t =>
-    if cellVal ≥ t then some (if cellVal ≠ t && !strict then [(depth, ipix)] else []) else none
+    if cellVal ≥ t then
+      -- (repaired) a target of 0: the threshold is the lower bound of the cell, the whole cell is added
+      (if t = 0 then some [(depth, ipix)] else some (if cellVal ≠ t && !strict then [(depth, ipix)] else []))
+    else none
   | fuel + 1, depth, ipix, cellVal, strict, t =>
     if cellVal ≥ t then
+      if t = 0 then some [(depth, ipix)] else
       let sub := cellVal / 4
       let (k, t') := takeSub sub 5 0 t
       if k < 4 then
-        (descentRev fuel (depth + 1) (ipix * 4 + (3 - k)) sub strict t').map fun rest =>
+        (descentRRev fuel (depth + 1) (ipix * 4 + (3 - k)) sub strict t').map fun rest =>
           rest ++ ((List.range (3 - k)).map fun i => (depth + 1, ipix * 4 + (3 - k - 1 - i)))
       else none
     else none
